@@ -208,8 +208,13 @@ class MEvent(Model):
 
 
 class MRLock(Model):
-  """threading.RLock: owner (0 = free, thread id + 1) and recursion count"""
+  """threading.RLock: owner (0 = free, thread id + 1) and recursion count.  reentrant=False: threading.Lock - a second acquire by the
+  holder blocks like anybody else's, any thread may release it"""
   cls = "RLock"
+
+  def __init__(self, name, reentrant=True):
+    super().__init__(name)
+    self.reentrant = reentrant
 
   def init(self):
     return {self.v("owner"): 0, self.v("count"): 0}
@@ -219,6 +224,12 @@ class MRLock(Model):
     me = B.const(tid + 1)
     free = B.eq(ow, B.const(0))
     mine = B.eq(ow, me)
+    if not self.reentrant:
+      if op == "acquire":
+        return [(free, "ok", B.const(1), {self.v("owner"): me, self.v("count"): B.const(1)})]
+      if op == "release":
+        return [(B.not_(free), "ok", B.const(NONE), {self.v("owner"): B.const(0), self.v("count"): B.const(0)}),
+                (free, "exc:RuntimeError", None, {})]
     if op == "acquire":
       return [(B.or_(free, mine), "ok", B.const(1), {self.v("owner"): me, self.v("count"): B.add(ct, B.const(1))})]
     if op == "release":
